@@ -10,8 +10,12 @@
     All statements quantify over EVERY label sequence [ls] = every history of
     calls and every schedule of the tasks, the run task and the child's exit.
     The registration part of C12 (plugins (un)registered between hook calls)
-    is not about the lifecycle model and is not stated here. *)
-From NL Require Import Life.Model Life.LockInv Life.FsmInv Life.Hist Life.Protocol.
+    is not about the lifecycle model: it is stated on the registry model
+    Life/Registry.v (a hook call is an atomic snapshot of the registry).
+    A run that FAILS TO START (a plugin's session context raising) is not a
+    label of the lifecycle model: that part of C12's quantifier is covered by
+    the run-fails-to-start scenarios and the oracle only. *)
+From NL Require Import Life.Model Life.LockInv Life.FsmInv Life.Hist Life.Protocol Life.Registry.
 Open Scope Z_scope.
 
 (** per run: initialise-run, start-run, end-run while the state is still
@@ -88,9 +92,30 @@ Example C12_example_automaton_rejects :
             h HFinished Finished None] = PF.
 Proof. vm_compute. repeat split; reflexivity. Qed.
 
+(** registration: a plugin receives exactly the hook calls made while it is registered,
+    i.e. those for which its last (un)registration so far was a registration: it starts /
+    stops receiving hooks from the next hook call on; each call reaches it once *)
+Theorem C12_registration : forall p ops s, NoDup s ->
+  received p (rrun s ops) = expected p (mem p s) ops /\
+  mem p (rstate s ops) = last_says p (mem p s) ops /\
+  NoDup (rstate s ops).
+Proof.
+  intros p ops s H. split; [exact (received_expected p ops s H)|].
+  split; [exact (registered_is_last_says p ops s) | exact (registry_nodup ops s H)].
+Qed.
+
+Example C12_registration_example :
+  let ops := [Hook 1; Reg 5; Hook 2; Reg 6; Hook 3; Unreg 5; Hook 4; Unreg 5; Reg 5; Hook 9] in
+  received 5%nat (rrun [] ops) = [2; 3; 9]%nat /\ received 6%nat (rrun [] ops) = [3; 4; 9]%nat
+  /\ rrun [] ops = [Delivered []; Done; Delivered [(5, 2)%nat]; Done; Delivered [(6, 3)%nat; (5, 3)%nat]; Done;
+                    Delivered [(6, 4)%nat]; Refused; Done; Delivered [(5, 9)%nat; (6, 9)%nat]].
+Proof. vm_compute. repeat split; reflexivity. Qed.
+
 Print Assumptions C12_order.
 Print Assumptions C12_run_arg_window.
 Print Assumptions C12_complete.
 Print Assumptions C12_not_for_refused.
 Print Assumptions C12_example_nonvacuous.
 Print Assumptions C12_example_automaton_rejects.
+Print Assumptions C12_registration.
+Print Assumptions C12_registration_example.
